@@ -176,6 +176,27 @@ class Normalizer(ast.NodeTransformer):
                     used = {x.id for e in st.value.elts for x in ast.walk(e) if isinstance(x, ast.Name)}
                     if all(stores.get(u, 0) <= 1 for u in used):
                         consts[nm] = st.value
+        # tables of named records: `a = (x, p); b = (y, q); t = ((a, b), (b, a))` -- element names that are themselves
+        # single-store literal tuples of the function body are spelled out (bounded depth), so that a destructuring
+        # loop target can be bound per element
+        class _Expand(ast.NodeTransformer):
+            def visit_Name(self_, n):
+                if isinstance(n.ctx, ast.Load) and n.id in consts and isinstance(consts[n.id], ast.Tuple):
+                    return copy.deepcopy(consts[n.id])
+                return n
+        for _ in range(3):
+            changed = False
+            for nm, val in list(consts.items()):
+                if any(isinstance(x, ast.Name) and x.id in consts and isinstance(consts[x.id], ast.Tuple) and x.id != nm
+                       for e in val.elts for x in ast.walk(e)):
+                    new = copy.deepcopy(val)
+                    new.elts = [_Expand().visit(e) for e in new.elts]
+                    size = sum(1 for _n in ast.walk(new))
+                    if size <= 200:
+                        consts[nm] = ast.fix_missing_locations(ast.copy_location(new, val))
+                        changed = True
+            if not changed:
+                break
         # block-local tables: `t = ((a, b), (b, a))` directly followed (same statement list, no store to the
         # element names in between) by `for x, y in t`
         def blocks(n):
